@@ -370,6 +370,7 @@ VARIANTS = {
     'mask_sift': lambda S, x, o, npr: S.mask_sift(x, max_imfs=2, nprocesses=npr, **o),
     'mask_sift[float]': lambda S, x, o, npr: S.mask_sift(x, max_imfs=2, mask_freqs=0.1, nprocesses=npr, **o),
     'ensemble_sift': lambda S, x, o, npr: S.ensemble_sift(x, max_imfs=2, nensembles=2, nprocesses=npr, **o),
+    'ensemble_sift[flip]': lambda S, x, o, npr: S.ensemble_sift(x, max_imfs=2, nensembles=2, noise_mode='flip', nprocesses=npr, **o),
     'complete_ensemble_sift': lambda S, x, o, npr: S.complete_ensemble_sift(x, max_imfs=2, nensembles=2, nprocesses=npr, **o)[0],
     'sift_second_layer': lambda S, x, o, npr: S.sift_second_layer(np.c_[np.abs(x) + 1, np.abs(x[::-1]) + 1], sift_args=dict(o, max_imfs=2)),
     'mask_sift_second_layer': lambda S, x, o, npr: S.mask_sift_second_layer(np.c_[np.abs(x) + 1, np.abs(x[::-1]) + 1], np.array([0.1, 0.05, 0.02]), sift_args=dict(o, max_imfs=2, nprocesses=npr)),
@@ -420,6 +421,8 @@ def trace_call(variant, opts, route, nprocesses):
                 cfg['nensembles'] = 2
             if variant == 'mask_sift[float]':
                 cfg['mask_freqs'] = 0.1
+            if variant == 'ensemble_sift[flip]':
+                cfg['noise_mode'] = 'flip'
             out = getattr(S, base)(x, **cfg)
             out = out[0] if isinstance(out, tuple) else out
         elif route == 'partial':
@@ -435,6 +438,8 @@ def trace_call(variant, opts, route, nprocesses):
                 cfg['nensembles'] = 2
             if variant == 'mask_sift[float]':
                 cfg['mask_freqs'] = 0.1
+            if variant == 'ensemble_sift[flip]':
+                cfg['noise_mode'] = 'flip'
             out = cfg.get_func()(x)
             out = out[0] if isinstance(out, tuple) else out
     except BaseException:
